@@ -237,3 +237,8 @@ mod test_translate_position {
         assert_eq!(position, (1, 2));
     }
 }
+
+#[cfg(toml_verif)]
+pub(crate) fn verif_translate_position(input: &[u8], index: usize) -> (usize, usize) {
+    translate_position(input, index)
+}
